@@ -148,6 +148,27 @@ emit(coroutine.resume(made[4], 40)) emit(coroutine.resume(made[5], 50)) emit(cor
 emit(coroutine.resume(o3)) emit(coroutine.status(o3))
 return 1`, 10+p%5)
 	}, true},
+	{"terminating-channels", 0, func(p int) string {
+		// buffered channels used by one state: send, receive, close and select with and
+		// without handler functions, cases of both directions in every order. With a
+		// context attached these operations take their select-with-Done paths.
+		return fmt.Sprintf(`local a, b, full = channel.make(4), channel.make(4), channel.make(1)
+full:send(0) -- a send on it is never ready: every select below has exactly one ready case
+a:send(%d) a:send("two") b:send(3)
+emit("recv", a:receive()) emit("recv", b:receive())
+local function h(tag) return function(...) emit(tag, select('#', ...), ...) return tag end end
+emit("sel1", channel.select({"|<-", a, h("ra")}, {"|<-", b, h("rb")}))
+emit("sel2", channel.select({"<-|", b, 7, h("sb")}, {"|<-", a, h("ra")}))
+emit("sel3", channel.select({"|<-", b, h("rb")}, {"<-|", full, "x", h("sf")}))
+emit("sel3b", channel.select({"<-|", full, "y", h("sf")}, {"|<-", full, h("rf")}))
+full:send(0)
+emit("sel4", channel.select({"<-|", full, 8, h("sf")}, {"<-|", a, 9, h("sa2")}, {"|<-", b, h("rb")}))
+emit("sel5", channel.select({"default", h("def")}, {"|<-", channel.make(1), h("never")}))
+emit("sel6", channel.select({"|<-", b}, {"<-|", a, 1}))
+for i = 1, 4 do local idx, v, ok = channel.select({"|<-", a, h("ra" .. i)}, {"|<-", b, h("rb" .. i)}, {"default"}) emit("drain", idx, v, ok) end
+a:close() emit("closed", a:receive()) emit("closed-select", channel.select({"|<-", a, h("rc")}, {"default"}))
+return %d`, 1+p%9, p%7)
+	}, true},
 	{"cancel-inside-coroutine", 1, func(p int) string {
 		return fmt.Sprintf("local co = coroutine.wrap(function()\n  local i = 0\n  while true do\n    i = i + 1\n    emit('co', i)\n    if i == %d then cancel() end\n    if i %% 3 == 0 then coroutine.yield(i) end\n  end\nend)\nwhile true do emit('main', co()) end", 1+p%9)
 	}, false},
